@@ -360,6 +360,22 @@ impl QView {
 /// the whole log: queue name -> queue.  Keys are Strings; `skey` names the String with given characters.
 pub type LogView = Map<String, QView>;
 
+/// append a batch, in order
+pub open spec fn append_all(q: QView, items: Seq<(u64, Seq<u8>)>) -> QView
+    decreases items.len(),
+{
+    if items.len() == 0 { q } else { append_all(q.append(items[0].0, items[0].1), items.skip(1)) }
+}
+
+/// ghost: the byte strings a payload iterator yields (each `impl Buf` read to its end)
+pub uninterp spec fn iter_payloads<T>(it: T) -> Seq<Seq<u8>>;
+
+/// the batch an append of payloads `ps` at first position `pos` stores: consecutive positions
+pub open spec fn items_of(pos: u64, ps: Seq<Seq<u8>>) -> Seq<(u64, Seq<u8>)> {
+    Seq::new(ps.len(), |i: int| ((pos + i) as u64, ps[i]))
+}
+
+
 pub open spec fn skey(k: Seq<char>) -> String { choose|s: String| s@ == k }
 
 /// every character sequence is the content of some String (assumed; trusted base)
@@ -385,6 +401,13 @@ pub open spec fn name_bytes(q: Seq<char>) -> Seq<u8> { vstd::utf8::encode_utf8(q
 pub open spec fn ser_entry(e: EntryView) -> Seq<u8> {
     seq![e.kind] + spec_u64_to_le_bytes(e.position) + spec_u16_to_le_bytes(name_bytes(e.queue).len() as u16)
         + name_bytes(e.queue) + e.body
+}
+
+pub proof fn lemma_ser_entry_len(e: EntryView)
+    ensures ser_entry(e).len() == 11 + name_bytes(e.queue).len() + e.body.len(),
+{
+    lemma_auto_spec_u64_to_from_le_bytes();
+    lemma_auto_spec_u16_to_from_le_bytes();
 }
 
 /// items of an AppendRecords body: (position(8, le) | len(4, le) | payload)*
@@ -521,6 +544,17 @@ pub proof fn lemma_parse_ser_entry(e: EntryView)
     }
 }
 
+/// an empty batch serializes to nothing, a non-empty one to something
+pub proof fn lemma_ser_items_empty(items: Seq<(u64, Seq<u8>)>)
+    ensures ser_items(items).len() == 0 <==> items.len() == 0,
+{
+    lemma_auto_spec_u64_to_from_le_bytes();
+    lemma_auto_spec_u32_to_from_le_bytes();
+    if items.len() > 0 {
+        assert(ser_item(items[0].0, items[0].1).len() >= 12);
+    }
+}
+
 // ------------------------------------------------------------------------------------ replay (C01)
 /// apply the items of an AppendRecords entry to queue k; None: an item is at a stale position
 /// (reported as Corruption by open)
@@ -548,6 +582,31 @@ pub open spec fn replay_entry(v: LogView, e: EntryView) -> Option<LogView> {
     } else {
         // DeleteQueue; unknown queue: ignored
         Some(v.remove(k))
+    }
+}
+
+
+/// L-C01-append: replaying a batch whose positions start at or after `next` and increase by one is
+/// exactly appending the batch
+pub proof fn lemma_replay_items_is_append_all(v: LogView, k: String, items: Seq<(u64, Seq<u8>)>, pos: u64)
+    requires
+        v.contains_key(k), pos >= v[k].next(), pos + items.len() <= u64::MAX,
+        forall|i: int| 0 <= i < items.len() ==> (#[trigger] items[i]).0 == pos + i,
+    ensures
+        replay_items(v, k, items) == Some(v.insert(k, append_all(v[k], items))),
+    decreases items.len(),
+{
+    if items.len() == 0 {
+        assert(v.insert(k, v[k]) =~= v);
+    } else {
+        let q1 = v[k].append(items[0].0, items[0].1);
+        let v1 = v.insert(k, q1);
+        assert(q1.next() == pos + 1);
+        assert forall|i: int| 0 <= i < items.skip(1).len() implies (#[trigger] items.skip(1)[i]).0 == (pos + 1) + i by {
+            assert(items.skip(1)[i] == items[i + 1]);
+        }
+        lemma_replay_items_is_append_all(v1, k, items.skip(1), (pos + 1) as u64);
+        assert(v1.insert(k, append_all(q1, items.skip(1))) =~= v.insert(k, append_all(v[k], items)));
     }
 }
 
